@@ -158,6 +158,12 @@ func add(a, b T) T {
 	if b == "0" {
 		return a
 	}
+	// off + (x - off) = x: absolute-index form of quantified slice indices (see evalSpec "quant")
+	if strings.HasPrefix(b, "(- ") && strings.HasSuffix(b, " "+a+")") {
+		if x := b[3 : len(b)-len(a)-2]; balanced(x) && !strings.Contains(x, " ") {
+			return x
+		}
+	}
 	return "(+ " + a + " " + b + ")"
 }
 func sub(a, b T) T {
